@@ -75,7 +75,17 @@ pub fn judge(p: &Program) -> Outcome {
     match run {
         Run::Rejected(e) => Outcome::ok("rejected", Some(hash_of(&("rej", e.class())))),
         Run::LoadPanic(_) => Outcome::ok("compile-panic (C04)", None),
-        Run::BackendPanic(_) => Outcome::ok("backend-panic (C01)", None),
+        Run::BackendPanic(pi) => match refsem::meaning(p) {
+            // The reference defines a document with cut recursion: an accepted program that
+            // produces no document at all breaks C09 as well as C01.
+            Ok((_, points)) if points > 0 => Outcome::bad(
+                "no-document",
+                format!("no document | panic {} | the reference defines a document with {} recursion", panic_site(&pi), "cut"),
+                format!("accepted, then panic at {}: {}", pi.location, pi.message.chars().take(200).collect::<String>()),
+                case(),
+            ),
+            _ => Outcome::ok("backend-panic (C01)", None),
+        },
         Run::EvalError(..) => Outcome::ok("evaluation error", None),
         Run::Doc(yaml, _) => {
             let y: serde_yaml::Value = match serde_yaml::from_str(&yaml) {
@@ -161,7 +171,10 @@ impl Engine for C09 {
             Phase::new("F7 @references (recursive and shared references)", json!({"frag":6,"thorough":false})),
             Phase::new("F5 declarations, functions, scoping", json!({"frag":4,"thorough":false})),
         ];
-        let _ = tier;
+        v.push(Phase::new("F11 recursion terms of <= 4 constructors (nested rec, rec through applications)", json!({"frag":10,"thorough":false})));
+        if tier == Tier::Thorough {
+            v.push(Phase::new("F11 recursion terms of <= 5 constructors", json!({"frag":10,"thorough":true})));
+        }
         v.push(Phase::new("F6 recursion: 3 declarations x 44 body forms", json!({"frag":5,"thorough":true})));
         v
     }
